@@ -25,7 +25,7 @@ func init() {
 			"The prefilter, window, fusion and diff arithmetic that actually find and trim the copy are numeric behaviour and are NOT decided."})
 	register(&Check{ID: "C02", Modules: []string{"v2"}, Run: runC02,
 		Explanation: "Thin structural clauses behind 'confidence never overstates': (R02.1) the corpus side of the diff is the whole document [0, size) and the same size is the denominator of the confidence; the distance is scoreDiffs of exactly the retained diff range; (R02.2) the two trimmed offsets are textLength of diffs[:start] and diffs[end:] of one diffRange call and are applied to the start and end of the span in that order; " +
-			"(R02.3) the Confidence of every license match is the first result of score; (R03.3) span/line agreement; (R03.9) only a consumed '\\n' advances the line counter. That the block cost bounds the Levenshtein distance is numeric and NOT decided."})
+			"(R02.3) the Confidence of every license match is the first result of score; (R02.4) the confidence is 1 - float(distance)/float(length), no integer arithmetic or rounding on the way; (R03.3) span/line agreement; (R03.9) only a consumed '\\n' advances the line counter. That the block cost bounds the Levenshtein distance is numeric and NOT decided."})
 	register(&Check{ID: "C05", Modules: []string{"v2"}, Run: runC05,
 		Explanation: "Thin structural clauses behind 'presentation changes do not matter': (R05.1) with normalisation on, every rune that enters a word buffer went through unicode.ToLower; (R05.2) the punctuation table maps every typographic dash to '-' and has lower-case-stable values; (R08.5) the decoder window (so that moving text by a few bytes cannot change a rune); (R08.6) the scan position moves only by the size of the decoded rune; (R03.9) line accounting: line + held line breaks advance by exactly one per decoded '\\n' and not otherwise; (R05.3) the token clean-up returns text it built rune by rune, never its raw argument (unless shown to be letters only). " +
 			"Whitespace and decoration handling of the rune state machine are NOT decided."})
@@ -353,6 +353,56 @@ func runC02(c *Ctx) {
 	}
 	spanLineRules(c, p)
 	checkLineCounter(c, p, "R03.9")
+	checkConfidenceFormula(c, p)
+}
+
+// checkConfidenceFormula: R02.4. The confidence is 1 - distance/|K| computed in floating point. Every non-constant result of
+// the function that turns (document length, distance) into a confidence is `1 - float(distance)/float(length)`; integer
+// arithmetic on the way (percent rounding) reports more than the bound allows.
+func checkConfidenceFormula(c *Ctx, p *core.Prog) {
+	cp := p.Func(v2pkg, "confidencePercentage")
+	if !c.R.Anchor(cp != nil && len(cp.Params) == 2, "v2.confidencePercentage") {
+		return
+	}
+	isFloatOf := func(v ssa.Value, prm *ssa.Parameter) bool {
+		cv, ok := v.(*ssa.Convert)
+		return ok && cv.X == ssa.Value(prm)
+	}
+	n := 0
+	for _, b := range cp.Blocks {
+		ret, ok := b.Instrs[len(b.Instrs)-1].(*ssa.Return)
+		if !ok || len(ret.Results) != 1 {
+			continue
+		}
+		if _, isC := ret.Results[0].(*ssa.Const); isC {
+			continue // the guard for an empty document
+		}
+		n++
+		okF, why := false, "the result is not 1 - float(distance)/float(length)"
+		if sub, isSub := ret.Results[0].(*ssa.BinOp); isSub && sub.Op == token.SUB {
+			if one, isOne := core.ConstFloat(sub.X); isOne && one == 1.0 {
+				if q, isQ := sub.Y.(*ssa.BinOp); isQ && q.Op == token.QUO {
+					// which parameter is the length: the one tested against zero
+					var klen, dist *ssa.Parameter
+					for i, prm := range cp.Params {
+						for _, r := range *prm.Referrers() {
+							if bo, isBo := r.(*ssa.BinOp); isBo && (bo.Op == token.EQL || bo.Op == token.NEQ) {
+								if k, isK := core.ConstInt(bo.Y); isK && k == 0 {
+									klen, dist = prm, cp.Params[1-i]
+								}
+							}
+						}
+					}
+					if klen != nil && isFloatOf(q.X, dist) && isFloatOf(q.Y, klen) {
+						okF, why = true, "1 - float64(distance)/float64(length)"
+					}
+				}
+			}
+		}
+		c.R.Check(okF, "R02.4", "confidencePercentage computes 1 - distance/length in floating point", p.Pos(ret.Pos()), why,
+			why+": integer arithmetic or rounding on the way to the confidence (whole percent, truncating division) reports a higher confidence than 1 - L/|K|, up to 1.0 for a text that is not identical")
+	}
+	c.R.RequireMin("R02.4", "computed results of confidencePercentage", n, 1)
 }
 
 // ---------------------------------------------------------------------------------------------
